@@ -12,6 +12,58 @@ use crate::tv::TV;
 use crate::util::{Ctx, Model, Report, Rng};
 use crate::wire;
 
+/// "unrelated earlier evaluations" that are most likely to interfere: a copy of the program
+/// with every name it binds renamed (prefix `zq_`) and every literal perturbed (string
+/// literals change the case of their letters, numbers get one added), so that the same
+/// built-ins run on near-identical arguments without touching the program's own names
+fn noise_copy(src: &str, names: &[String]) -> String {
+    let cs: Vec<char> = src.chars().collect();
+    let mut out = String::new();
+    let mut i = 0;
+    while i < cs.len() {
+        let c = cs[i];
+        if c == '"' || c == '\'' {
+            out.push(c);
+            i += 1;
+            while i < cs.len() && cs[i] != c {
+                let ch = cs[i];
+                if ch.is_lowercase() { out.extend(ch.to_uppercase()); } else if ch.is_uppercase() { out.extend(ch.to_lowercase()); } else { out.push(ch); }
+                i += 1;
+            }
+            if i < cs.len() { out.push(c); i += 1; }
+        } else if c.is_ascii_alphabetic() || c == '_' {
+            let st = i;
+            while i < cs.len() && (cs[i].is_ascii_alphanumeric() || cs[i] == '_') { i += 1; }
+            let w: String = cs[st..i].iter().collect();
+            if names.contains(&w) { out.push_str("zq_"); }
+            out.push_str(&w);
+        } else if c.is_ascii_digit() {
+            let st = i;
+            while i < cs.len() && (cs[i].is_ascii_digit()) { i += 1; }
+            let w: String = cs[st..i].iter().collect();
+            let plain_int = (st == 0 || !(cs[st - 1] == '.' || cs[st - 1] == 'e' || cs[st - 1].is_ascii_alphanumeric() || cs[st - 1] == '_')) && (i >= cs.len() || !(cs[i] == '.' || cs[i] == 'e' || cs[i] == 'x' || cs[i] == 'b'));
+            match (plain_int, w.parse::<u64>()) {
+                (true, Ok(n)) if n < 1000 => out.push_str(&format!("{}", n + 1)),
+                _ => out.push_str(&w),
+            }
+        } else {
+            out.push(c);
+            i += 1;
+        }
+    }
+    out
+}
+
+/// evaluate in a fresh thread (pristine thread-local state), returning the outcomes of the last `keep` statements
+fn in_fresh_thread(src: String, keep: usize, inputs: Option<TV>) -> Option<Vec<String>> {
+    std::thread::Builder::new().stack_size(256 << 20).spawn(move || {
+        let stmts = statements(&src).ok()?;
+        let sess = run_real(&stmts, inputs.as_ref(), &src);
+        let n = sess.outcomes.len();
+        Some(sess.outcomes[n.saturating_sub(keep)..].to_vec())
+    }).ok()?.join().ok()?
+}
+
 fn has_lambda(w: &str) -> bool {
     w.contains("(lambda ")
 }
@@ -37,6 +89,49 @@ pub fn run(ctx: &Ctx, rep: &mut Report) {
         let again = run_real(&stmts, inp, &src);
         if again.outcomes != sess.outcomes || env_wire(&again) != env_wire(&sess) {
             rep.finding("oracle", "nondeterministic", &src, &format!("first={} second={}", short(&sess.outcomes.join(" ")), short(&again.outcomes.join(" "))), "c02.nondeterministic");
+        }
+        // unrelated earlier evaluations: the program alone vs after a renamed, perturbed copy of
+        // itself, each in a fresh thread (pristine thread-local state)
+        if i % 2 == 0 && !src.contains("time_now") && !src.contains("random") {
+            // every name the program binds anywhere (`name =`), so that the copy binds none of them
+            let mut names: Vec<String> = _sc.vars.iter().map(|(n, _)| n.clone()).collect();
+            {
+                let cs: Vec<char> = src.chars().collect();
+                let mut j = 0;
+                while j < cs.len() {
+                    if cs[j].is_ascii_alphabetic() || cs[j] == '_' {
+                        let st = j;
+                        while j < cs.len() && (cs[j].is_ascii_alphanumeric() || cs[j] == '_') { j += 1; }
+                        let mut k2 = j;
+                        while k2 < cs.len() && cs[k2] == ' ' { k2 += 1; }
+                        if k2 + 1 < cs.len() && cs[k2] == '=' && cs[k2 + 1] != '=' && cs[k2 + 1] != '>' {
+                            let w: String = cs[st..j].iter().collect();
+                            if !names.contains(&w) { names.push(w); }
+                        }
+                    } else if cs[j] == '"' || cs[j] == '\'' {
+                        let q = cs[j];
+                        j += 1;
+                        while j < cs.len() && cs[j] != q { j += 1; }
+                        j += 1;
+                    } else {
+                        j += 1;
+                    }
+                }
+            }
+            let noisy = format!("{}\n{}", noise_copy(&src, &names), src);
+            if let (Ok(_), n_own) = (statements(&noisy), stmts.len()) {
+                let alone = in_fresh_thread(src.clone(), n_own, inp.cloned());
+                let after = in_fresh_thread(noisy.clone(), n_own, inp.cloned());
+                rep.count("noise-pairs");
+                if let (Some(a), Some(b)) = (alone, after) {
+                    let strip = |v: &Vec<String>| v.iter().map(|o| if has_lambda(o) { "(fn)".to_string() } else { o.clone() }).collect::<Vec<_>>();
+                    if strip(&a) != strip(&b) {
+                        let k = a.iter().zip(b.iter()).position(|(x, y)| x != y).unwrap_or(0);
+                        rep.finding("oracle", "earlier-evaluation-changes-result", &noisy,
+                            &format!("statement {} of the program: alone={} after unrelated statements={}", k, short(&a[k]), short(&b[k])), "c02.earlier-evaluation");
+                    }
+                }
+            }
         }
         // no statement changes the value seen through an earlier binding
         {
@@ -136,6 +231,37 @@ pub fn run(ctx: &Ctx, rep: &mut Report) {
         rep.count("cli-runs");
         if a != b {
             rep.finding("oracle", "process-nondeterministic", src, &format!("first={:?} second={:?}", a, b), "c02.process-nondeterministic");
+        }
+    }
+    // the order of the fields of `inputs` (many keys, -i and stdin) is the same in every process
+    {
+        use std::io::Write;
+        use std::process::{Command, Stdio};
+        let keys = ["zeta", "alpha", "m1", "k9", "Beta", "q", "omega", "b2", "aa", "x_y", "n", "delta"];
+        let doc = format!("{{{}}}", keys.iter().enumerate().map(|(i, k)| format!("\"{}\": {}", k, i + 1)).collect::<Vec<_>>().join(", "));
+        let prog = "output ks = keys(inputs)\noutput vs = values(inputs)\noutput first = entries(inputs)[0]\noutput joined = join(keys(inputs), \"-\")";
+        let mut seen: Vec<(String, String)> = vec![];
+        for round in 0..ctx.budget(6, 16) {
+            for mode in ["-i", "stdin"] {
+                let mut cmd = Command::new("timeout");
+                cmd.arg("20").arg(&ctx.blots_bin).arg(prog);
+                let out = if mode == "-i" {
+                    cmd.arg("-i").arg(&doc).stdin(Stdio::null()).output().ok()
+                } else {
+                    cmd.stdin(Stdio::piped()).stdout(Stdio::piped()).stderr(Stdio::piped());
+                    cmd.spawn().ok().and_then(|mut ch| { let _ = ch.stdin.take().unwrap().write_all(doc.as_bytes()); ch.wait_with_output().ok() })
+                };
+                let text = out.map(|o| format!("{:?} {}", o.status.code(), String::from_utf8_lossy(&o.stdout))).unwrap_or_default();
+                rep.count("cli-input-order-runs");
+                if let Some((_, t0)) = seen.iter().find(|(m, _)| m == mode) {
+                    if *t0 != text {
+                        rep.finding("oracle", "process-nondeterministic", &format!("{} with inputs {} ({})", prog, doc, mode), &format!("run 0: {} run {}: {}", short(t0), round, short(&text)), "c02.process-nondeterministic");
+                        break;
+                    }
+                } else {
+                    seen.push((mode.to_string(), text));
+                }
+            }
         }
     }
     rep.model_requests = model.requests;
